@@ -10,7 +10,7 @@ from ptstat import AnalysisError, algebra
 from ptstat.symval import SymObj, Phi, SymRaise, merge
 from ptstat.world import mass_sym
 from .common import world, eq, dict_eq, fsite, raises, folder, _s
-from .C12 import action, action_site
+from .C12 import action, action_site, _action_qual
 
 EXPLANATION = (
     "Value graphs of _mix_by_weight_pairs/_mix_by_volume_pairs, of mix_by_weight/mix_by_volume and of "
@@ -142,7 +142,7 @@ def _run(ctx):
 
     # ---- R2 call forms and string forms reach the same helpers ---------------------
     cg = ctx.src.callgraph()
-    aq = lambda role: action(I, w, role).qual
+    aq = lambda role: _action_qual(action(I, w, role))
     for caller, callee in (("formulas.mix_by_weight", "formulas._mix_by_weight_pairs"),
                            ("formulas.mix_by_volume", "formulas._mix_by_volume_pairs"),
                            (aq("convert_by_weight"), "formulas._mix_by_weight_pairs"),
@@ -276,7 +276,7 @@ def _run(ctx):
     nread = 0
     container_methods = set(dir(list)) | set(dir(dict)) | set(dir(str)) | set(dir(tuple))
     for name in ("convert_by_weight", "convert_by_volume", "convert_by_layer", "convert_by_absmass", "convert_mixture", "convert_compound"):
-        f = ctx.src.func(action(I, w, name).qual)
+        f = ctx.src.func(_action_qual(action(I, w, name)))
         for node in ast.walk(f.node):
             if isinstance(node, ast.Attribute) and isinstance(node.ctx, ast.Load) and isinstance(node.value, ast.Name) \
                     and node.attr not in container_methods:
